@@ -220,6 +220,16 @@ class RobotDriver:
         if self.ended:
             return False
         nxt = self.next_alarm()
+        if nxt is None:
+            # the robot thread may still be catching up (several iterations without sleeping) and be between two
+            # waits: give it a moment to arm its next alarm before calling that a harness problem
+            for _ in range(300):
+                time.sleep(0.01)
+                if self.ended:
+                    return False
+                nxt = self.next_alarm()
+                if nxt is not None:
+                    break
         now = now_us()
         if nxt is None:
             raise HarnessError("robot thread is idle but no notifier alarm is armed")
